@@ -254,6 +254,19 @@ public:
    */
   AssociationGraphImplObserver<N, E, GraphImpl>& operator=(bpp::AssociationGraphImplObserver<N, E, GraphImpl> const& graphObserver)
   {
+    if (this == &graphObserver)
+      return *this;
+    // leave the graph observed so far, forget its objects:
+    this->getGraph()->unregisterObserver(this);
+    this->graphidToN_.clear();
+    this->graphidToE_.clear();
+    this->NToGraphid_.clear();
+    this->EToGraphid_.clear();
+    this->indexToN_.clear();
+    this->indexToE_.clear();
+    this->NToIndex_.clear();
+    this->EToIndex_.clear();
+
     this->graphidToN_.resize(graphObserver.graphidToN_.size());
     this->graphidToE_.resize(graphObserver.graphidToE_.size());
     this->indexToN_.resize(graphObserver.indexToN_.size());
